@@ -81,9 +81,7 @@ def project(w):
         return 'E lib'
     if w.startswith('P '):
         return 'P'
-    m = re.match(r'E (argcount|argtype) (S[0-9a-f]*)(.*)', w)
-    if m:
-        return 'E %s%s' % (m.group(1), m.group(3))
+    # (the function name in argument errors IS an observable: C12/C20 say the error names the function)
     return w
 
 def classify(case, r):
